@@ -117,6 +117,12 @@ def run_check(prop, mod, tier, seed, t0):
             if f.key in seen:
                 continue
             seen.add(f.key)
+            if hasattr(mod, "minimize"):
+                # shrink the failing history to a shorter one with the same failure (delta debugging against the real code)
+                try:
+                    f = run_isolated(mod, tier, seed, what="minimize", args=(f,))
+                except Exception:
+                    pass
             path = write_replay(prop, seed, {"property": prop, "tier": tier, "seed": seed, "failure": f.to_json(),
                                              "broken": broken})
             print(f"[{prop}] failing input: {f.what[:400]}")
@@ -181,7 +187,7 @@ def run_isolated(mod, tier, seed, what="run", args=None):
     def child():
         try:
             common.limit_memory()
-            out = mod.run(tier, seed) if what == "run" else list(mod.search(*args))
+            out = mod.run(tier, seed) if what == "run" else (mod.minimize(*args) if what == "minimize" else list(mod.search(*args)))
             wr.send_bytes(pickle.dumps(("ok", out)))
         except common.Infra as e:
             wr.send_bytes(pickle.dumps(("infra", str(e))))
@@ -226,6 +232,8 @@ def run_isolated(mod, tier, seed, what="run", args=None):
                                f"harness was driving it: the code no longer behaves like the model on some generated input", {"exitcode": p.exitcode, "killed": killed})
         if what == "search":
             return []
+        if what == "minimize":
+            return args[0]
         return {"failures": [], "mismatches": [crash], "evaluations": 0, "distinct_nontrivial": 0,
                 "rule": "harness process died", "samples": [], "tags": {}, "crashed": True}
     kind, out = pickle.loads(data)
